@@ -217,11 +217,37 @@ def lineOffset (c : BCur) : Except Panic (Int × BCur) :=
     .ok ((colFrom (sub src (segOf segs c.ln).start.toNat c.p.toNat) 0 : Int) - c.pad, c)
   else .error .pre
 
-/-- BlockReader.Value(seg) is the segment's own value when the segment lies inside line `j` (and before
-    the next line) and carries that line's padding (Value uses the line's padding, not the segment's) -/
+/-- `seg` starts in block line `j`: at or after that line's first byte and before the next line's -/
+def valueLineAt (j : Nat) (s : Segment) : Prop :=
+  ∃ l, segs[j]? = some l ∧ l.start ≤ s.start ∧ s.start ≤ s.stop ∧ (∀ n, segs[j + 1]? = some n → s.start < n.start)
+
+/-- BlockReader.Value(seg) is the segment's own value when the segment lies inside one block line `j` and
+    EITHER starts at the line's first byte and carries that line's padding OR starts inside the line and has
+    no padding; no ForceNewline. (Since 96b5bf4 the line's padding is only put in front of its first byte.) -/
 def valuePreAt (j : Nat) (s : Segment) : Prop :=
-  ∃ l, segs[j]? = some l ∧ l.start ≤ s.start ∧ s.start ≤ s.stop ∧ s.stop ≤ l.stop ∧ s.padding = l.padding ∧
+  ∃ l, segs[j]? = some l ∧ l.start ≤ s.start ∧ s.start ≤ s.stop ∧ s.stop ≤ l.stop ∧
+    ((s.start = l.start ∧ s.padding = l.padding) ∨ (l.start < s.start ∧ s.padding = 0)) ∧
     s.forceNewline = false ∧ (∀ n, segs[j + 1]? = some n → s.start < n.start)
+
+/-- what the later block lines contribute to `Value(seg)` when `seg` runs on past a line: each line its whole
+    view (padding spaces, then its bytes) up to `stop`, ending with the first line that reaches `stop` -/
+def valueRest (stop : Int) : List Segment → Bytes
+  | [] => []
+  | l :: rest =>
+    l.concatPadding [] ++ sub src l.start.toNat (if stop < l.stop then stop else l.stop).toNat ++
+      (if l.stop ≥ stop then [] else valueRest stop rest)
+
+/-- the meaning of `BlockReader.Value(seg)` for a segment that starts in line `j` and may span further lines
+    (what the inline parsers use for labels and titles that continue on later lines): the first line gives
+    its padding only if `seg` starts at its first byte, then `src[seg.start : min(seg.stop, line.stop))`;
+    every later line up to `seg.stop` gives its padding and its bytes -/
+def blockValue (j : Nat) (s : Segment) : Bytes :=
+  match segs[j]? with
+  | none => []
+  | some l =>
+    (if s.start = l.start then l.concatPadding [] else []) ++
+      sub src s.start.toNat (if s.stop < l.stop then s.stop else l.stop).toNat ++
+      (if l.stop ≥ s.stop then [] else valueRest src s.stop (segs.drop (j + 1)))
 
 /-- the cursor as a Reader for the helpers -/
 def ops : Ops BCur where
